@@ -31,7 +31,7 @@ use std::time::Duration;
 pub static INFO: PropInfo = PropInfo {
     id: "C10",
     level: "exploration",
-    rule: "one evaluation = one run against a fresh secure server with max_clients 1..4, 2..6 identities (1..3 tokens each, same id / different user data and keys) and 2..6 source addresses, all handshakes hand-driven through the crate's codec: first the scripted situations (two half-open sessions for one id answered in both orders; one address presenting several tokens; k handshakes racing for the last free slot with responses in seeded order; responses echoing the challenge of another half-open session; a full server receiving complete fresh handshakes; set_max_clients raised and the new slots used), then 80..400 seeded operations (request, matching or cross response, client disconnect packet from the right or a wrong address, server disconnect, time steps of 10 ms..3 s with update_client on every id so that 2 s / 5 s timeouts fire, keep-alive payloads, replays of any earlier datagram from its own or another address, re-minted tokens, set_max_clients raised; lowered only in the runs that do not assert the capacity clause). After EVERY call the connection-table model fed by the ServerResults is compared with clients_id / connected_clients / client_addr / user_data / is_client_connected, and sessions are probed with payloads in both directions (sealed under the keys of the token the session was created from). Non-trivial = the run saw at least 2 simultaneously connected clients (or max_clients = 1), at least one disconnect and at least one refused handshake at a full server; distinct = distinct fingerprints of the (operation, result kind, table) history.",
+    rule: "one evaluation = one run against a fresh secure server with max_clients 1..4, 2..6 identities (1..3 tokens each, same id / different user data and keys) and 2..6 source addresses, all handshakes hand-driven through the crate's codec: first the scripted situations (two half-open sessions for one id answered in both orders; one address presenting several tokens; k handshakes racing for the last free slot with responses in seeded order; responses echoing the challenge of another half-open session; a full server receiving complete fresh handshakes; set_max_clients raised and the new slots used), then 80..400 seeded operations (request, matching or cross response, client disconnect packet from the right or a wrong address, server disconnect, time steps of 10 ms..3 s with update_client on every id so that 2 s / 5 s timeouts fire - in a third of them a connection request (preferably another token of a connected id, from another address) is processed after the clock advanced and before the sweep, the order the transport works in -, keep-alive payloads, replays of any earlier datagram from its own or another address, re-minted tokens, set_max_clients raised; lowered only in the runs that do not assert the capacity clause). After EVERY call the connection-table model fed by the ServerResults is compared with clients_id / connected_clients / client_addr / user_data / is_client_connected, and sessions are probed with payloads in both directions (sealed under the keys of the token the session was created from). Non-trivial = the run saw at least 2 simultaneously connected clients (or max_clients = 1), at least one disconnect and at least one refused handshake at a full server; distinct = distinct fingerprints of the (operation, result kind, table) history.",
     assumptions: &[
         "the capacity clause is asserted only in runs that never lower the limit (as the statement says)",
         "clients_id() is expected to equal the set {ClientConnected reported, ClientDisconnected not yet reported} after every call",
@@ -323,13 +323,25 @@ impl World {
         false
     }
 
-    fn tick(&mut self, ctx: &Ctx, out: &mut Outcome, dt: Duration) {
+    /// `between`: a request (token index, source) that the transport reads from the socket after the clock has
+    /// advanced and before the per-client sweep - the order NetcodeServerTransport::update works in.
+    fn tick_with(&mut self, ctx: &Ctx, out: &mut Outcome, dt: Duration, between: Option<(usize, SocketAddr)>) {
         if self.stop {
             return;
         }
         self.srv.update(dt);
         self.hist.push(format!("update({} ms)", dt.as_millis()));
         self.invariants(ctx, out);
+        if let Some((t, from)) = between {
+            out.count("request_between_clock_and_sweep");
+            if self.model.contains_key(&self.toks[t].id()) {
+                out.count("request_for_connected_id_between_clock_and_sweep");
+            }
+            let _ = self.request(ctx, out, t, from);
+            if self.stop {
+                return;
+            }
+        }
         for id in self.srv.s.clients_id() {
             if self.stop {
                 return;
@@ -687,7 +699,16 @@ pub fn one_run(ctx: &Ctx, out: &mut Outcome, run_seed: u64) {
             }
             11 | 12 => {
                 let ms = *r.pick(&[10u64, 100, 300, 1000, 1000, 3000]);
-                w.tick(ctx, out, Duration::from_millis(ms));
+                // sometimes a connection request arrives in that very tick, preferably for an id that is connected
+                // (another token of the same identity, from another address)
+                let between = if r.chance(1, 3) && !w.toks.is_empty() && !w.addrs.is_empty() {
+                    let connected: Vec<usize> = (0..w.toks.len()).filter(|t| w.model.contains_key(&w.toks[*t].id())).collect();
+                    let t = if !connected.is_empty() && r.chance(3, 4) { *r.pick(&connected) } else { r.usize_below(w.toks.len()) };
+                    Some((t, *r.pick(&w.addrs)))
+                } else {
+                    None
+                };
+                w.tick_with(ctx, out, Duration::from_millis(ms), between);
             }
             13 | 14 => {
                 let cids: Vec<u64> = w.model.keys().copied().collect();
